@@ -1,6 +1,6 @@
 (* C18 — shutdown at any moment fails pending work and leaves nothing running.
    Only statements here; every proof is [exact <lemma of Proofs/C18.v>]. *)
-From Verif Require Import Lib.Py Lib.Tactics Model.C18 Proofs.C18 Proofs.C18Inv Proofs.C18Req.
+From Verif Require Import Lib.Py Lib.Tactics Model.C18 Proofs.C18 Proofs.C18Inv Proofs.C18Req Proofs.C18R6.
 Open Scope Z_scope.
 
 (* The Shutdown step, from any state that is not yet shut down and whose cancellable timers are all referenced from
@@ -98,6 +98,40 @@ Theorem C18_shutdown_at_any_moment : forall u m t before after, wf_history t bef
   pending (mm (fst (run (fst (run s' after)) (repeat Fire (length (forgets (mm (fst (run s' after))))))))) = [].
 Proof. exact shutdown_at_any_moment. Qed.
 Print Assumptions C18_shutdown_at_any_moment.
+(* SHUTDOWN_TIMEOUT (clause "shutdown itself completes", protocol.py:514-536), over whole histories from a fresh context: with a
+   transport whose shutdown() never returns ([CShutdown false] of the layered machine [cstep]), for every [before] without Shutdown
+   and every in-scope [after]: at the call every handler is cancelled and every outstanding request / observation fails with a
+   library error exactly as with a prompt transport (only the return is missing); afterwards every output is either quiet or
+   the return of Context.shutdown, which happens exactly once (count + still-waiting = 1), and Context.shutdown is no longer
+   waiting as soon as the clock has reached call time + SHUTDOWN_TIMEOUT. *)
+Theorem C18_shutdown_times_out : forall u m t before after,
+  forallb not_shutdown before = true -> forallb in_scope after = true ->
+  let s := fst (run (init u m t) before) in
+  let r1 := cstep {| c_base := s; c_wait := None |} (CShutdown false) in
+  let r2 := crun (fst r1) (map CEvent after) in
+  snd r1 = map (fun i => OHCancel (i_h i)) (ilist (tm s)) ++ flat_map shutdown_outcome (olist (tm s)) /\
+  forallb (forallb quiet_or_done) (snd r2) = true /\
+  (count_done (concat (snd r2)) + waiting (fst r2) = 1)%nat /\
+  (now (mm s) + SHUTDOWN_TIMEOUT <= now (mm (c_base (fst r2))) -> c_wait (fst r2) = None /\ count_done (concat (snd r2)) = 1%nat).
+Proof. exact shutdown_times_out. Qed.
+Print Assumptions C18_shutdown_times_out.
+Theorem C18_hung_shutdown_settles_requests : forall u m t before after, wf_history t before after ->
+  let s := fst (run (init u m t) before) in
+  let outs := concat (snd (run (init u m t) before)) in
+  let r1 := cstep {| c_base := s; c_wait := None |} (CShutdown false) in
+  forallb lib_outcome (snd r1) = true /\
+  forall q ob, In (q, ob) (reqs_of before) ->
+     (exists o, In o (outs ++ snd r1) /\ settles ob q o = true) \/
+     (exists x, In x (resolving (tm (c_base (fst r1)))) /\ rlabel x = q /\ snd x = ob).
+Proof. exact hung_shutdown_settles_requests. Qed.
+Print Assumptions C18_hung_shutdown_settles_requests.
+Example C18_shutdown_times_out_example :
+  let c1 := fst (cstep {| c_base := busy_state; c_wait := None |} (CShutdown false)) in
+  c_wait c1 = Some (100000 + SHUTDOWN_TIMEOUT) /\
+  snd (crun c1 [CEvent (Advance 2999999); CEvent (ClientRequest 7 1 CON false); CEvent (Advance 1); CEvent (Advance 300000000)])
+    = [[]; [OFail 7 LibraryShutdown]; [OShutdownDone]; []].
+Proof. exact shutdown_times_out_example. Qed.
+
 (* what the code guarantees for a request whose remote lookup outlives shutdown: it fails with LibraryShutdown at the
    moment the lookup returns *)
 Theorem C18_resolved_after_shutdown_fails : forall s q r mt ob, outgoing (tm s) = None ->
